@@ -87,6 +87,14 @@ def getReduced (j : Json) (k : String) : Except String (Reduced Float) :=
       pure { rA := rows, rb := rb }
   | _ => .error s!"!bad-arg:{k}"
 
+def getReducedRat (j : Json) (k : String) : Except String (Reduced Rat) :=
+  match j.getObjVal? k with
+  | .ok v => do
+      let rows ← (← getArr v "rA").mapM fun r => do (← asArr r).mapM asRat
+      let rb ← getRatList v "rb"
+      pure { rA := rows, rb := rb }
+  | _ => .error s!"!bad-arg:{k}"
+
 def h : Handler := fun op j =>
   match op with
   | "stoichs_constants" => do
@@ -179,6 +187,20 @@ def h : Handler := fun op j =>
             showNatList ck2 ++ "|" ++ showRatList a ++ "|" ++ showRatList b,
             showRes (upperConcBounds s init)]))
       | _ => pure (";;".intercalate base)
+  | "rp_f" => do
+      -- Lin / Square with rref_equil = False and either rref_preserv: exact over ℚ
+      let s ← getSys j
+      let form ← getStr j "form"
+      let prec ← getBoolList j "precipitates"
+      let small ← getRat j "small"
+      let rp ← getBool j "rref_preserv"
+      let redP ← getReducedRat j "redP"
+      let y ← getRatList j "y"
+      let p ← getRatList j "params"
+      match form with
+      | "lin" => pure (showRes (numSysLinRpF s prec small rp redP y p))
+      | "square" => pure (showRes (numSysSquareRpF s prec small rp redP y p))
+      | _ => .error "!bad-arg:form"
   | "cfg_f" => do
       -- every formulation in every (rref_equil, rref_preserv) configuration, Float; the reducer outputs are inputs
       let s ← getSys j
